@@ -75,6 +75,17 @@ class BMSIO(GameIO):
 
         return BMSMap.read_file(path, note_channel_config=self._cfg(layout))
 
+    def read_api(self, data, layout=None, raw_newlines=False):
+        from reamber.bms.BMSMap import BMSMap
+
+        text = data.decode("shift_jis")
+        if not raw_newlines:
+            text = text.replace("\r\n", "\n")
+        return BMSMap.read(text.split("\n"), note_channel_config=self._cfg(layout))
+
+    def write_api(self, obj, layout=None) -> bytes:
+        return obj.write(note_channel_config=self._cfg(layout))
+
     def write(self, obj, path, layout=None):
         return obj.write_file(path, note_channel_config=self._cfg(layout))
 
